@@ -2,3 +2,5 @@ pub mod c13;
 pub mod c20;
 pub mod certcase;
 pub mod suite;
+pub mod c01;
+pub mod c15;
